@@ -224,7 +224,12 @@ def replay_history(job: T.Tuple[str, T.List[T.Dict[str, T.Any]], int]) -> T.Dict
                 obs = {'skip': True, 'exists': False, 'v': NONE, 'ch': [], 'x': NONE, 'dl': NONE, 'subdl': NONE, 'sp': NONE,
                        'sf': NONE, 'lv': NONE, 'cmd': {k: NONE for k in DKEY}, 'mv': NONE, 'msp': NONE, 'msubdl': NONE, 'msf': NONE}
             else:
-                obs = observe(d, env, out, configuring and rc == 0)
+                try:
+                    obs = observe(d, env, out, configuring and rc == 0)
+                except MachineryError as e:
+                    done_so_far = ' ; '.join(x['a'] for x in rec)
+                    raise MachineryError(f'history [{hid}] after [{done_so_far} ; {a}] rc={rc}: ' + ' | '.join(str(e).splitlines()[-12:])
+                                         + ' || command output: ' + ' | '.join(out.splitlines()[-8:])) from e
             if 'Traceback (most recent call last)' in out:
                 how += ' TRACEBACK'
             rec.append({'a': a, 'D': D, 'k': ev['k'], 'e': {'t': ev['e']['t'], 'ch': list(ev['e']['ch']), 'def': ev['e']['def']},
